@@ -50,9 +50,13 @@
        that moment stays dirty -- until Plan::CleanNode looks at it again because one of its inputs
        was cleaned (then the full re-evaluation decides).  This is the listed finding
        dyndep-restat-known-late (Module ExLate).
-   (3) Builder::FinishCommand reads restat AFTER the load: [run_edge] on the loaded graph. *)
+   (3) Builder::FinishCommand reads restat AFTER the load: [run_edge] on the loaded graph.
+
+   [ybuild_f] (end of the file) is the same invocation with HistFaithful's CleanNode machinery instead of
+   [dirty_now]; the theorems are about [ybuild] (exact without input-less phony statements, like
+   HistDefs.build).  Module ExReplay replays the real scenario of the listed finding build for build. *)
 From NinjaV Require Import Engine.CrashDefs.
-From NinjaV Require Import Base.Bytes Engine.ScanDefs Engine.ScanSpec Engine.HistDefs.
+From NinjaV Require Import Base.Bytes Engine.ScanDefs Engine.ScanSpec Engine.HistDefs Engine.HistFaithful.
 Local Open Scope Z_scope.
 
 (* ------------------------------------------------------------------ ground truth *)
@@ -472,3 +476,182 @@ Example late_restat :
   map (content_of sy_end) [0; 1; 2; 3]%nat = map (content_of si_end) [0; 1; 2; 3]%nat.
 Proof. vm_compute. repeat split; reflexivity. Qed.
 End ExLate.
+
+(* ================================================================== the real replay of the finding *)
+(* /verif/findings/C11/dyndep-restat-known-late.scn (tools/showtrace), statement for statement:
+     nodes: 0 s0  1 s1  2 s2  3 dd0  4 d0/o0  5 o1
+     e0  build dd0   : r900 s2 s0
+     e1  build d0/o0 : r0 s1 s0 | s2 || dd0     dyndep = dd0   (the file: restat = 1)
+     e2  build o1    : r1 d0/o0 || s2 s1 dd0    dyndep = dd0   restat = 1 in the manifest (the file: nothing)
+   steps: build dd0; edit s0; build; build; touch s0; build; the command of r900 changes; build; touch s0;
+   build; build; build; build.  The engine's commands per build (dyndep variant):
+     [dd0] [dd0 d0/o0 o1] [] [dd0 d0/o0] [dd0 d0/o0] [dd0 d0/o0] [] [] []
+   and the inlined variant differs in the fifth build only, where it runs [dd0]. *)
+Module ExReplay.
+Definition g : graph :=
+  mkGraph 3
+    (fun e => match e with
+              | 0%nat => mkEdge [2%nat; 0%nat] 0 0 [3%nat] [] false false false DepsNone 900
+              | 1%nat => mkEdge [1%nat; 0%nat; 2%nat; 3%nat] 1 1 [4%nat] [] false false false DepsNone 100
+              | 2%nat => mkEdge [4%nat; 2%nat; 1%nat; 3%nat] 0 3 [5%nat] [] false true false DepsNone 101
+              | _ => Ex.dummy
+              end)
+    (fun n => match n with 3%nat => Some 0%nat | 4%nat => Some 1%nat | 5%nat => Some 2%nat | _ => None end)
+    (fun _ => false).
+Definition y : dyninfo :=
+  mkY [3%nat] (fun e => match e with 1%nat | 2%nat => Some 3%nat | _ => None end)
+      (fun _ => []) (fun _ => []) (fun e => match e with 1%nat => true | _ => false end) (fun _ => None).
+Local Open Scope N_scope.
+Definition cmd (e : edge) (h : N) (S : snapshot) (o : node) : content := 1 + h + 3 * Ex.sum_snap S + N.of_nat o.
+Local Close Scope N_scope.
+Definition gin := inline_y g y.
+Definition hist : list hstep :=
+  [Edit 0 7; Edit 1 7; Edit 2 20; Build [3%nat]; Edit 0 35; Build [5%nat]; Build [5%nat];
+   Edit 0 35; Build [5%nat]; SetCmd 0 901; Build [5%nat]; Edit 0 35; Build [5%nat];
+   Build [5%nat]; Build [5%nat]; Build [5%nat]].
+
+(* the commands of every Build step, in order, each most recent first *)
+Fixpoint runs (step : hstate -> hstep -> hstate) (st : hstate) (h : list hstep) : list (list edge) :=
+  match h with
+  | [] => []
+  | x :: h' =>
+    let st' := step st x in
+    match x with
+    | Build _ => ran_since st st' :: runs step st' h'
+    | _ => runs step st' h'
+    end
+  end.
+
+Example replay_dyndep :
+  runs (yapply_step cmd g y) (init_hstate g) hist
+  = [[0]; [2; 1; 0]; []; [1; 0]; [1; 0]; [1; 0]; []; []; []]%nat.
+Proof. vm_compute. reflexivity. Qed.
+
+Example replay_inlined :
+  runs (apply_step cmd gin) (init_hstate g) hist
+  = [[0]; [2; 1; 0]; []; [1; 0]; [0]; [1; 0]; []; []; []]%nat.
+Proof. vm_compute. reflexivity. Qed.
+
+Example replay_conditions :
+  frag_ABY g y && frag_AB gin && topo_ordered gin && no_inputless_phony gin && dd_ins_ordered g y
+  && hist_ok gin hist && hist_present_y cmd g y (init_hstate g) hist = true
+  /\ no_late_restat g y = false /\
+  map (content_of (yrun_hist cmd g y (init_hstate g) hist)) [0; 1; 2; 3; 4; 5]%nat
+  = map (content_of (run_hist cmd gin (init_hstate g) hist)) [0; 1; 2; 3; 4; 5]%nat.
+Proof. vm_compute. repeat split; reflexivity. Qed.
+End ExReplay.
+
+(* ================================================================== the CleanNode-faithful variant *)
+(* The same invocation with HistFaithful's machinery instead of [dirty_now]: the scan's node flags and
+   the want map are kept while the build runs, a restat command that leaves an output alone calls
+   Plan::CleanNode ([restat_clean]), a statement runs iff it is still wanted at its turn.  A mid-build load
+   re-scans the current world on the new graph and MERGES: every statement that is still wanted keeps its
+   want and the dirty flag of its outputs (RecomputeNodeDirty's revisit_dirty, for every statement, not only
+   for late restat), everything else takes the fresh verdict.  No theorems about this variant; on graphs
+   without input-less phony statements it is meant to coincide with [ybuild] (Examples below); it is the
+   entry point for a tie against the engine on graphs WITH them. *)
+Record fcst := mkFC {
+  fc_st : hstate;
+  fc_L : list node;
+  fc_x : cst;
+  fc_ran : edge -> bool;
+  fc_stop : bool
+}.
+Inductive frun := FRun (c : fcst) | FFail (st : hstate).
+
+Definition merge_cst (G : graph) (old : cst) (s' : sstate) (p' : plan) : cst :=
+  let keep := filter (c_want old) (seq 0 (g_nedges G)) in
+  mkC (fold_left (fun s e => mark_outputs_dirty s (ei_outs (g_edge G e))) keep s')
+      (fun e => c_want old e || want_start p' e).
+
+Section ModelYF.
+Variable cmd : edge -> N -> snapshot -> node -> content.
+Variable g : graph.
+Variable y : dyninfo.
+
+Definition ystep_f (T : list node) (r : frun) (k : edge) : frun :=
+  match r with
+  | FFail _ => r
+  | FRun c =>
+    if fc_stop c || fc_ran c k then r
+    else
+      let st := fc_st c in
+      let L := fc_L c in
+      let G := gl g y L in
+      let x := fc_x c in
+      let run := c_want x k && negb (ei_phony (g_edge G k)) in
+      let st1 := if run then run_edge cmd G st k else st in
+      match (if run then restat_clean (graph_of G st1) (world_of st1) k (mkC (c_s x) (unwant (c_want x) k))
+             else Some x) with
+      | None => FFail st1
+      | Some x1 =>
+        let ran1 := fun e => if Nat.eqb e k then run || fc_ran c e else fc_ran c e in
+        match pending_of g y L k with
+        | [] => FRun (mkFC st1 L x1 ran1 false)
+        | new =>
+          let L' := L ++ new in
+          match scan (graph_of (gl g y L') st1) (world_of st1) T with
+          | ScanOk s' p' => FRun (mkFC st1 L' (merge_cst (gl g y L') x1 s' p') ran1 true)
+          | _ => FFail st1
+          end
+        end
+      end
+  end.
+
+Definition ypass_f (T : list node) (c : fcst) : frun :=
+  fold_left (ystep_f T) (seq 0 (g_nedges g)) (FRun (mkFC (fc_st c) (fc_L c) (fc_x c) (fc_ran c) false)).
+
+Fixpoint ypasses_f (T : list node) (fuel : nat) (c : fcst) : frun :=
+  match fuel with
+  | O => FRun c
+  | S f =>
+    match ypass_f T c with
+    | FRun c' => if fc_stop c' then ypasses_f T f c' else FRun c'
+    | r => r
+    end
+  end.
+
+Definition ybuild_f (st : hstate) (T : list node) : yres :=
+  let L0 := scan_loads g y st in
+  match scan (graph_of (gl g y L0) st) (world_of st) T with
+  | ScanOk s p =>
+    if dd_src_missing g y st s then YRefused
+    else match ypasses_f T (pass_fuel y) (mkFC st L0 (init_cst s p) (fun _ => false) false) with
+         | FRun c => if fc_stop c then YFailed (fc_st c) else YDone (fc_st c)
+         | FFail st' => YFailed st'
+         end
+  | _ => YRefused
+  end.
+
+Definition yapply_step_f (st : hstate) (x : hstep) : hstate :=
+  match x with
+  | Build T => match ybuild_f st T with YDone st' => st' | YFailed st' => st' | YRefused => st end
+  | _ => apply_step cmd g st x
+  end.
+
+Definition yrun_hist_f (st : hstate) (h : list hstep) : hstate := fold_left yapply_step_f h st.
+End ModelYF.
+
+Module ExYF.
+(* the faithful variant on the three projects: same commands per build, same final contents *)
+Example replay_faithful :
+  ExReplay.runs (yapply_step_f ExReplay.cmd ExReplay.g ExReplay.y) (init_hstate ExReplay.g) ExReplay.hist
+  = [[0]; [2; 1; 0]; []; [1; 0]; [1; 0]; [1; 0]; []; []; []]%nat.
+Proof. vm_compute. reflexivity. Qed.
+
+Example exy_faithful :
+  let sf := yrun_hist_f ExY.cmd ExY.g ExY.y (init_hstate ExY.g) ExY.hist in
+  let sy := yrun_hist ExY.cmd ExY.g ExY.y (init_hstate ExY.g) ExY.hist in
+  h_trace sf = h_trace sy /\ ExY.contents sf = ExY.contents sy /\ h_clock sf = h_clock sy /\
+  map (h_blog sf) ExY.nodes = map (h_blog sy) ExY.nodes.
+Proof. vm_compute. repeat split; reflexivity. Qed.
+
+Example exlate_faithful :
+  ExReplay.runs (yapply_step_f ExLate.cmd ExLate.g ExLate.y) (init_hstate ExLate.g) ExLate.hist
+  = [[1; 0]; [1]; [1; 0]]%nat /\
+  ExReplay.runs (yapply_step ExLate.cmd ExLate.g ExLate.y) (init_hstate ExLate.g) ExLate.hist
+  = [[1; 0]; [1]; [1; 0]]%nat /\
+  ExReplay.runs (apply_step ExLate.cmd ExLate.gin) (init_hstate ExLate.g) ExLate.hist
+  = [[1; 0]; [1]; [0]]%nat.
+Proof. vm_compute. repeat split; reflexivity. Qed.
+End ExYF.
